@@ -107,20 +107,19 @@ NearQ(a, c) == Abs(a - c) <= 101                     \* within 1/60000 degree (=
 \* for a fractional altitude either neighbouring integer is accepted), and lone / late: millionths of a position unit added
 \* to lonq / latq (|.| <= 500000, so lonq / latq stay the nearest unit and NearQ's slack of one unit covers them).
 AltF(f) == IF "altf" \in DOMAIN f THEN f.altf ELSE 0
-AltOK(f, g) == IF AltF(f) = 0 THEN g.alt = Clamp(f.alt, 0, 10000)
-               ELSE g.alt \in {Clamp(f.alt, 0, 10000), Clamp(f.alt + 1, 0, 10000)}
+\* "the same integer altitude clamped to the format's range".  The quantifier gives altitudes 0..10000: there the altitude
+\* comes back exactly.  Outside 0..10000 the statement does not fix WHICH range the format has (the five-column field holds
+\* 0..99999; the present encoder clamps to 0..10000): an altitude above 10000 may come back clamped to 10000 or to 99999
+\* (i.e. unchanged up to 99999), a negative altitude comes back as 0.
+AltCands(f) == IF AltF(f) = 0 THEN {f.alt} ELSE {f.alt, f.alt + 1}
+AltImages(a) == IF a < 0 THEN {0} ELSE IF a <= 10000 THEN {a} ELSE {10000, Clamp(a, 0, 99999)}
+AltOK(f, g) == \E a \in AltCands(f) : g.alt \in AltImages(a)
 RoundTripOK(track, got) ==
   /\ Len(got) = Len(track)
   /\ \A i \in DOMAIN track :
        /\ NearQ(got[i].lonq, track[i].lonq) /\ NearQ(got[i].latq, track[i].latq)
        /\ got[i].t = track[i].t
        /\ AltOK(track[i], got[i])
-\* consecutive repetitions removed
-RECURSIVE Dedup(_, _)
-Dedup(q, i) == IF i > Len(q) THEN <<>> ELSE (IF i > 1 /\ q[i] = q[i-1] THEN <<>> ELSE <<q[i]>>) \o Dedup(q, i + 1)
-\* the ddmmyy texts of the date headers a written track carries: one per change of UTC day
-DateText(day) == LET ymd == CivilFromDays(day) IN D2(ymd[3]) \o D2(ymd[2]) \o D2(ymd[1] % 100)
-TrackDates(track) == LET days == Dedup([i \in DOMAIN track |-> track[i].t[1]], 1) IN [i \in DOMAIN days |-> DateText(days[i])]
 InDomain(track) ==
   /\ \A i \in DOMAIN track : /\ Abs(track[i].lonq) <= 180 * 6000000 /\ Abs(track[i].latq) <= 90 * 6000000
                              /\ track[i].t[1] >= 0 /\ track[i].t[1] <= DaysFromCivil(2069, 12, 31)
